@@ -45,9 +45,9 @@ LEVEL_NOTE = ('Trusted: the id->function model, gcc-compiled C callers, libffi. 
 ASSUMPTIONS = ['x86-64 Linux: cffi uses its own closure allocator (malloc_closure.h), 56-byte closures',
                'callbacks are only invoked while their cdata object is alive',
                'Python callbacks return in-range values (no error path)']
-BUDGET = {'quick': 160, 'thorough': 8000}
+BUDGET = {'quick': 160, 'thorough': 3200}
 STEPS = {'quick': 30, 'thorough': 60}
-TIME = {'quick': 30, 'thorough': 840}
+TIME = {'quick': 20, 'thorough': 600}
 MIN_PER_SHARD = 20      # 8 shards in the quick tier
 MAX_LIVE = 12000
 
